@@ -5,6 +5,8 @@ Streams
   norm        `in_dim % rank` and the out_dim normalisation vs Model `normInDim/normOutDim`
   vmap        modelled domain: torch.vmap(program, in_dims, out_dims)(tensordict) on the real library vs the
               compiled model of the code path (`c19.vmap` = addBD → runProgB → removeBD) — batch size, names, every leaf
+  memo_hist   histories on locked tensordicts / lazy stacks between real vmap calls (in-place writes, memmap_, names, batch_size,
+              unlock/set/lock, refused unlocks): lock ancestors and wrapper identities vs Model/C19MemoHist.lean (+ value oracle)
   loop(model) the model's specification side (`c19.loop` = stackTD ∘ map runProg ∘ unbindTD) against the model's
               code path on the same inputs (the theorem `vmap_td_eq_loop`, exercised through the driver)
 Oracle (property itself on the real code): stack([f(slice_k)], out_dim) computed by the real library, for the
@@ -168,6 +170,10 @@ def main():
         run.case(("memo", it, locked, str(reqs_m)), nontrivial=locked and len(reqs_m) > 1)
         run.count("memo.locked", locked)
         run.corr("memo(keying)", {"batch": list(b), "locked": locked, "requests": reqs_m}, impl, model)
+
+    # ------------------------------------------------------------------ 2c. histories on locked tensordicts between vmap calls (lock graph, rebinding ops)
+    import c19_memohist
+    c19_memohist.run_stream(run, drv, rng, quick)
 
     # ------------------------------------------------------------------ 3. vmap on tensordicts: modelled domain
     cases = []
@@ -333,11 +339,14 @@ def main():
         ro = len(bo)
         o1 = rng.randrange(-(ro + 1), ro + 1)
         o2 = rng.randrange(0, ro + 1)          # the tensor output: positions inside its batch dims (leaf rank may be larger)
-        def f(t, prog=prog, key=key):
+        same_obj = rng.random() < 0.3          # ONE result object returned twice, each position unwrapped at its own out_dim
+        if same_obj:
+            o2 = rng.randrange(-(ro + 1), ro + 1)
+        def f(t, prog=prog, key=key, same_obj=same_obj):
             out = G.run_real(prog, t)
-            return out, out.get(G.rk(out, key))
+            return (out, out) if same_obj else (out, out.get(G.rk(out, key)))
         td = G.make_td(b)
-        case = {"batch": list(b), "in_dim": i, "out_dims": [o1, o2], "prog": G.sx_prog(prog), "key": key}
+        case = {"batch": list(b), "in_dim": i, "out_dims": [o1, o2], "prog": G.sx_prog(prog), "key": "(the same object)" if same_obj else key}
         def go():
             with time_limit(30):
                 return torch.vmap(f, in_dims=i, out_dims=(o1, o2))(td)
@@ -345,14 +354,17 @@ def main():
         run.case(("vmap_tuple", str(case)), nontrivial=got[0] == "seq")
         run.count("tuple.outcome", got[0])
         reqs1.append(sx("c19.vmap", td_sx(b, None), i, o1, G.sx_prog(prog)))
-        reqs2.append(sx("c19.vmap", td_sx(b, None), i, o2, G.sx_prog(prog + [("select", key)])))
+        reqs2.append(sx("c19.vmap", td_sx(b, None), i, o2, G.sx_prog(prog if same_obj else prog + [("select", key)])))
         impl.append(got)
-        meta.append(case)
+        meta.append((case, same_obj))
+        run.count("tuple.same_object", same_obj)
     a1 = ask_chunked(drv, reqs1)
     a2 = ask_chunked(drv, reqs2)
-    for case, got, x1, x2 in zip(meta, impl, a1, a2):
+    for (case, same_obj), got, x1, x2 in zip(meta, impl, a1, a2):
         m1, m2 = G.canon_model(parse_sx(x1)), G.canon_model(parse_sx(x2))
-        if m1[0] == "ok" and m2[0] == "ok":
+        if same_obj and m1[0] == "ok" and m2[0] == "ok":
+            model = ["seq", m1, m2]
+        elif m1[0] == "ok" and m2[0] == "ok":
             leaf = m2[3][1]
             model = ["seq", m1, ["t", leaf[1], leaf[2]]]
         else:
